@@ -604,10 +604,10 @@ func main() {
 	r := ev.New("C03")
 	r.Rule("one case = a seeded operation sequence (Add/Remove/Contains over chosen high-16-bit buckets, or a scripted fill of one bucket across 4096 and back) applied to RoaringBitmap and a map model; distinct = distinct hash of the Add/Remove sequence; non-trivial = at least two members and at least one full Iter/Range/All comparison")
 	r.Assume("the set model (Go map + sort) is the specification; container kinds are not inspected, bucket fill levels are tracked in the model")
-	r.Cases("mix", r.N(3000, 150000), ev.Opt{HangViolation: true}, mixCase)
-	r.Cases("threshold", r.N(60, 3000), ev.Opt{HangViolation: true}, thresholdCase)
+	r.Cases("mix", r.N(3000, 60000), ev.Opt{HangViolation: true}, mixCase)
+	r.Cases("threshold", r.N(60, 1500), ev.Opt{HangViolation: true}, thresholdCase)
 	r.Cases("churn", r.N(3000, 100000), ev.Opt{HangViolation: true}, churnCase)
-	r.Cases("dense", r.N(160, 6000), ev.Opt{HangViolation: true}, denseCase)
+	r.Cases("dense", r.N(160, 4000), ev.Opt{HangViolation: true}, denseCase)
 	// the array->bitmap conversion uses an unsafe cast: one pass under -race (which implies checkptr)
 	r.CasesProc("threshold/checkptr", r.N(8, 100), ev.Opt{Bin: "race", Procs: 4}, thresholdCase)
 	r.Require("enumerations", 1000)
